@@ -2563,3 +2563,18 @@ def _(it, a, info):
     for i in range(n):
         dst.buf.arr = z3.Store(dst.buf.arr, dst.off + i, a[1])
     return unit()
+
+
+@model('f32::is_finite', 'f32::is_nan', 'f32::is_infinite', 'f32::is_sign_negative')
+def _(it, a, info):
+    x = deref(it, a[0])
+    m = info['method']
+    if m == 'is_finite':
+        return z3.BoolVal(x.cls == 'fin')
+    if m == 'is_nan':
+        return z3.BoolVal(x.cls == 'nan')
+    if m == 'is_infinite':
+        return z3.BoolVal(x.cls in ('inf', 'ninf'))
+    if x.cls == 'fin':
+        return z3.simplify(x.milli < 0)
+    return z3.BoolVal(x.cls == 'ninf')
